@@ -251,9 +251,70 @@ def gen_b(rng):
     return " ".join(toks) + " ; " + " ; ".join(ops)
 
 
+def gen_churn(rng, stage_b):
+    """churn pattern: n dynamic subscribers fill a pool, leave in a random order, then AAA-static subscribers
+    reserve released addresses, then dynamic subscribers arrive again (free-list order after releases matters)."""
+    n = rng.choice([2, 3, 3, 4])
+    lo = V4BASE + 256 + 1
+    ns = n + rng.choice([2, 3, 4])
+    if stage_b:
+        toks = ["B", "V", "imm", "P4", "1", "0", "0", str(lo), str(lo + n - 1), "-", "G", "0", "0", "-"]
+        for k in range(1, ns + 1):
+            toks += ["S", str(k), "I", "0", str(k)]
+        ops = []
+        first = list(range(1, n + 1))
+        for k in first:
+            ops += ["BD %d" % k, "BA %d 0 - -" % k, "BQ %d" % k]
+        leave = first[:]
+        rng.shuffle(leave)
+        leave = leave[:rng.randint(max(1, n - 1), n)]
+        for k in leave:
+            ops.append(rng.choice(["BR %d self" % k, "BT %d" % k, "BR %d self" % k]))
+        rest = list(range(n + 1, ns + 1))
+        nstat = rng.randint(1, min(2, len(rest) - 1))
+        for k in rest[:nstat]:
+            ops += ["BD %d" % k, "BA %d 0 %d -" % (k, rng.randint(lo, lo + n - 1)), "BQ %d" % k]
+        for k in rest[nstat:]:
+            ops += ["BD %d" % k, "BA %d 0 - -" % k, "BQ %d" % k]
+        return " ".join(toks) + " ; " + " ; ".join(ops)
+    toks = ["P4", "1", "0", "0", str(lo), str(lo + n - 1), "-", "G", "0", "0", "-"]
+    protos = {}
+    for k in range(1, ns + 1):
+        protos[k] = rng.choice(["P", "P", "I"])
+        toks += ["S", str(k), protos[k], "0", str(k)]
+
+    def arrive(k, static):
+        st = str(static) if static is not None else "-"
+        if protos[k] == "P":
+            return ["PA %d 0 %s - - - - -" % (k, st)]
+        return ["ID %d 0 %s -" % (k, st), "IQ %d 0 %s -" % (k, st)]
+
+    def leave_op(k):
+        if protos[k] == "P":
+            return "PT %d" % k
+        return rng.choice(["IR %d" % k, "IR %d" % k, "IT %d" % k])
+    ops = []
+    first = list(range(1, n + 1))
+    for k in first:
+        ops += arrive(k, None)
+    leave = first[:]
+    rng.shuffle(leave)
+    leave = leave[:rng.randint(max(1, n - 1), n)]
+    for k in leave:
+        ops.append(leave_op(k))
+    rest = list(range(n + 1, ns + 1))
+    nstat = rng.randint(1, min(2, len(rest) - 1))
+    for k in rest[:nstat]:
+        ops += arrive(k, rng.randint(lo, lo + n - 1))
+    for k in rest[nstat:]:
+        ops += arrive(k, None)
+    return " ".join(toks) + " ; " + " ; ".join(ops)
+
+
 def gen_cases(rng, tier, budget):
     n = budget or (700 if tier == "quick" else 20000)
-    return [gen_one(rng) for _ in range(n)] + [gen_b(rng) for _ in range(n // 2)]
+    return ([gen_one(rng) for _ in range(n)] + [gen_churn(rng, False) for _ in range(n // 5)] +
+            [gen_b(rng) for _ in range(n // 2)] + [gen_churn(rng, True) for _ in range(n // 7)])
 
 
 # ------------------------------------------------------------------ parsing helpers
